@@ -105,16 +105,31 @@ def case_seed(root_seed, pid, idx):
     return mix(root_seed, pid, idx)
 
 
+class RunTimeout(Exception):
+    pass
+
+
+def _alarm(*a):
+    raise RunTimeout("a single simulated run exceeded %d s of wall clock (harness bug)" % RUN_ALARM)
+
+
+RUN_ALARM = 120
+
+
 def _wrun(idx):
     mod, ctx = _W["mod"], _W["ctx"]
+    signal.signal(signal.SIGALRM, _alarm)
+    signal.alarm(getattr(mod, "RUN_ALARM", RUN_ALARM))
     try:
         s = case_seed(_W["seed"], mod.ID, idx)
         case = mod.gen(Rng(s), _W["tier"], idx)
         r = mod.run(case, ctx)
         r["idx"] = idx
         r["case_seed"] = s
+        signal.alarm(0)
         return r
     except Exception:
+        signal.alarm(0)
         return {"idx": idx, "ok": False, "vclass": "harness-exception", "sig": "harness-exception",
                 "detail": traceback.format_exc(), "infra": True, "sim_ns": 0, "faults": {}, "probes": {},
                 "ihash": "", "nontrivial": False, "states": [], "sample": None, "evals": 0}
@@ -366,6 +381,7 @@ def run_check(pid, tier, seed, nworkers=None, max_violations=4):
 
     wall = time.time() - t0
     distinct_nt = len(agg["nontrivial"])
+    extra = mod.evidence_extra(agg) if hasattr(mod, "evidence_extra") else {}
     ev = {
         "property_id": pid, "tier": tier, "seed": seed, "level": mod.LEVEL,
         "coverage": {
@@ -391,8 +407,7 @@ def run_check(pid, tier, seed, nworkers=None, max_violations=4):
         "wall_s": round(wall, 2),
         "violations": nviol,
     }
-    if hasattr(mod, "evidence_extra"):
-        ev["coverage"].update(mod.evidence_extra(agg))
+    ev["coverage"].update(extra)
     os.makedirs(os.path.join(VERIF, "evidence"), exist_ok=True)
     with open(os.path.join(VERIF, "evidence", pid + ".json"), "w") as f:
         json.dump(ev, f, indent=1, sort_keys=True)
